@@ -64,7 +64,7 @@ func (s *sess) expectClosed() (cli, srv bool) {
 		return true, true
 	case "peer-close", "peer-reset", "peer-halfclose":
 		return true, true
-	case "read-err":
+	case "read-err", "close-err+Close", "close-err+peer-close":
 		return true, true
 	}
 	// write-err / short-write: a failed write closes the client connection but not necessarily the
